@@ -98,9 +98,11 @@ static ALLOC: Guard = Guard;
 
 const GIB: usize = 1 << 30;
 const SLACK: usize = 64 * 1024;
-/// serde pre-allocates at most 1 MiB for a sequence whose claimed length it cannot trust yet
-/// (`size_hint::cautious`): a constant, deliberate ceiling of every serde/bitcode decoder
-const SERDE_CAP: usize = 1 << 20;
+/// serde pre-allocates at most 1 MiB worth of elements for a sequence or map whose claimed length
+/// it cannot trust yet (`size_hint::cautious`); for a `HashMap` that is 65 536 entries, which
+/// hashbrown rounds up to 131 072 buckets plus control bytes (2.2 MB observed for
+/// `PendingTxState::votes`). A constant, deliberate ceiling of every serde/bitcode decoder.
+const SERDE_CAP: usize = 4 << 20;
 
 /// Runs the code under test; returns its result (or the panic message) and the largest single
 /// allocation the calling thread requested meanwhile (refused requests included).
@@ -1876,7 +1878,7 @@ fn g_rle_case(cx: &mut GCtx) {
         for (how, inp) in inputs {
             let limit = 256 * inp.len() + SERDE_CAP + SLACK;
             let res = measured(|| bitcode::deserialize::<RleEncoded<i64>>(&inp));
-            match cx.judge("bitcode<RleEncoded>", &how, &inp, limit, "256*input+1MiB+64KiB", res) {
+            match cx.judge("bitcode<RleEncoded>", &how, &inp, limit, "256*input+4MiB+64KiB", res) {
                 None => return,
                 Some(Ok(enc)) => {
                     cx.r.count("g-rle:decoded-ok", 1);
@@ -1932,7 +1934,7 @@ fn g_sparse_case(cx: &mut GCtx) {
     for (how, inp) in hostile_inputs(&mut rng, &bytes, cx.r) {
         let limit = 256 * inp.len() + SERDE_CAP + SLACK;
         let res = measured(|| bitcode::deserialize::<SparseVector>(&inp));
-        match cx.judge("bitcode<SparseVector>", &how, &inp, limit, "256*input+1MiB+64KiB", res) {
+        match cx.judge("bitcode<SparseVector>", &how, &inp, limit, "256*input+4MiB+64KiB", res) {
             None => return,
             Some(Err(_)) => cx.r.count("g-sparse:rejected", 1),
             Some(Ok(s)) => {
@@ -2004,7 +2006,7 @@ fn g_snapfmt_case(cx: &mut GCtx) {
     for (how, inp) in hostile_inputs(&mut rng, &bytes, cx.r) {
         let limit = 256 * inp.len() + SERDE_CAP + SLACK;
         let res = measured(|| CompressedSnapshot::deserialize(&inp));
-        let s = match cx.judge("CompressedSnapshot::deserialize", &how, &inp, limit, "256*input+1MiB+64KiB", res) {
+        let s = match cx.judge("CompressedSnapshot::deserialize", &how, &inp, limit, "256*input+4MiB+64KiB", res) {
             None => return,
             Some(Err(_)) => {
                 cx.r.count("g-snapfmt:rejected", 1);
@@ -2075,7 +2077,7 @@ fn g_frame_case(cx: &mut GCtx) {
     };
     let validator = CompositeValidator::new(MessageValidationConfig::default());
     let declared = if spec.v2 { spec.max.max(tcpc::MAX_DECOMPRESSED_SIZE) } else { spec.max };
-    let lname = if spec.v2 { "max(max_frame_length, MAX_DECOMPRESSED_SIZE)+256*input+1MiB+64KiB" } else { "max_frame_length+256*input+1MiB+64KiB" };
+    let lname = if spec.v2 { "max(max_frame_length, MAX_DECOMPRESSED_SIZE)+256*input+4MiB+64KiB" } else { "max_frame_length+256*input+4MiB+64KiB" };
     let mut h = 0u64;
     let after = |cx: &mut GCtx, m: &Message, how: &str, inp: &[u8]| -> bool {
         // a decoded message must be usable: printable, re-encodable, validatable
@@ -2171,7 +2173,7 @@ fn g_frame_case(cx: &mut GCtx) {
                     Handshake::read_from(&mut rd, hmax).await.map(|h| h.node_id.len())
                 })
             });
-            if cx.judge("Handshake::read_from", &how, &inp, limit, "max_size+256*input+1MiB+64KiB", res).is_none() {
+            if cx.judge("Handshake::read_from", &how, &inp, limit, "max_size+256*input+4MiB+64KiB", res).is_none() {
                 return;
             }
         }
@@ -2335,7 +2337,7 @@ fn g_wal_case(cx: &mut GCtx, dir: &Path) {
                 w.replay().map(|v| v.iter().map(|e| format!("{:?}", e)).collect()).map_err(|e| e.to_string())
             }),
         };
-        match cx.judge("open+replay", &how, &inp, limit, "64*file_length+1MiB+64KiB", res) {
+        match cx.judge("open+replay", &how, &inp, limit, "64*file_length+4MiB+64KiB", res) {
             None => {
                 cleanup(&path);
                 return;
@@ -2381,7 +2383,15 @@ fn g_snapfile_case(cx: &mut GCtx, dir: &Path) {
         }
         let _ = store.put(format!("k{}", i), t);
     }
-    let saved = if quantising { store.save_snapshot_compressed(&path, CompressionConfig { tensor_mode: None, delta_encoding: true, rle_encoding: true }) } else { store.save_snapshot(&path) };
+    let with_tt = quantising && rng.bool();
+    if with_tt {
+        // an embedding, so that the file carries tensor-train cores
+        let mut t = TensorData::new();
+        t.set("_embedding", TensorValue::Vector((0..64).map(|i| ((i as f32) * 0.37).sin()).collect()));
+        let _ = store.put("emb:e", t);
+    }
+    let tensor_mode = if with_tt { Some(TensorMode::TensorTrain(TTConfig::for_dim(64).unwrap())) } else { None };
+    let saved = if quantising { store.save_snapshot_compressed(&path, CompressionConfig { tensor_mode, delta_encoding: true, rle_encoding: true }) } else { store.save_snapshot(&path) };
     drop(store);
     if saved.is_err() {
         cx.r.inconclusive("g-snapfile: save failed");
@@ -2402,7 +2412,7 @@ fn g_snapfile_case(cx: &mut GCtx, dir: &Path) {
         }
         inputs.push((format!("header-truncate@{}", b / 8), valid[..(b / 8).min(valid.len())].to_vec()));
     }
-    for _ in 0..4 {
+    for _ in 0..if with_tt { 24 } else { 4 } {
         let bit = rng.below(valid.len() * 8);
         let mut v = valid.clone();
         v[bit / 8] ^= 1 << (bit % 8);
@@ -2582,6 +2592,12 @@ fn child_main(args: &Args) {
             b[8..].copy_from_slice(&s.to_le_bytes());
             let _ = f.write_all_at(&b, 0);
         }
+        if args.extra_u64("selftest-abort-at", u64::MAX) == i {
+            // self-test of the abort classification (never set by the check driver): an allocation
+            // the guard refuses, through an infallible API, ends the process the way a decoder would
+            let v: Vec<u8> = vec![0u8; 7 * GIB];
+            std::hint::black_box(v);
+        }
         let res = std::panic::catch_unwind(std::panic::AssertUnwindSafe(|| run_garbage_case(&part, s, scratch.path(), &mut r)));
         if let Err(e) = res {
             let m = panic_msg(&e);
@@ -2653,6 +2669,9 @@ fn run_chunk(args: &Args, part: &str, from: u64, count: u64, single: Option<u64>
             .stderr(errf);
         if let Some(s) = single {
             cmd.args(["--case-seed", &s.to_string()]);
+        }
+        if let Some(x) = args.extra.get("selftest-abort-at") {
+            cmd.args(["--selftest-abort-at", x]);
         }
         let mut child = match cmd.spawn() {
             Ok(c) => c,
@@ -2863,7 +2882,7 @@ fn main() {
             "vector fields of the quantising snapshot format are compared by value (an id list passes through integers)".into(),
             "compress_ints and rle_encode are not called by any persistence path of the store (only rle_decode is), so compress_ints' f32 fallback is not judged".into(),
             "tensor-train: bound = relative L2 error 1% (for_dim) / 0.1% (high_accuracy) as documented in tensor_compress/src/lib.rs and docs/book/src/architecture/tensor-compress.md; only inputs built with TT-rank <= max_rank/2; results whose ranks reach max_rank are inconclusive".into(),
-            "allocation ceilings: max_frame_length (v1) / max(max_frame_length, MAX_DECOMPRESSED_SIZE) (v2) + 256*input + 64 KiB for frames; MAX_DECOMPRESSED_SIZE for decompress; 64*file_length + 64 KiB for log replay; 256*input + 1 MiB (the pre-allocation cap of serde itself) + 64 KiB for bitcode decoders without a declared limit, and the same 1 MiB on top of every ceiling that includes a bitcode decode; inherently expansive decoders (run lengths, sparse->dense, tensor-train) are only called when the element count they claim is small and are judged on panics".into(),
+            "allocation ceilings: max_frame_length (v1) / max(max_frame_length, MAX_DECOMPRESSED_SIZE) (v2) + 256*input + 64 KiB for frames; MAX_DECOMPRESSED_SIZE for decompress; 64*file_length + 64 KiB for log replay; 256*input + 4 MiB (serde pre-allocates at most 1 MiB worth of elements for an untrusted length, up to 2.2 MB for a HashMap) + 64 KiB for bitcode decoders without a declared limit, and the same 4 MiB on top of every ceiling that includes a bitcode decode; inherently expansive decoders (run lengths, sparse->dense, tensor-train) are only called when the element count they claim is small and are judged on panics".into(),
             "with record checksums on, replay of a corrupted log must return Err or a prefix of the appended records (a CRC collision, 2^-32 per record, would be a false alarm)".into(),
             "the harness profile has overflow-checks and debug-assertions on: an arithmetic-overflow panic reported here wraps silently in a default release build".into(),
         ],
